@@ -82,6 +82,20 @@ Theorem polars_left_join_is_the_reference : forall d l r on st,
 Proof. intros d l r on st C F. apply (pl_compile_correct_proof d (Join l r on JLeft) st C F). Qed.
 Print Assumptions polars_left_join_is_the_reference.
 
+(* FULL joins.  SQL: compile_ast asserts that neither operand carries a WHERE predicate; the theorem needs
+   both operands without computed columns (either side can be padded).  Polars: unconditional. *)
+Theorem sql_full_join_is_the_reference : forall d l r on c,
+  compile (Join l r on JFull) = Some c -> flat_ok (Join l r on JFull) = true ->
+  sem_query d c = export_ref (do_join (sem_ref d l) (sem_ref d r) on JFull).
+Proof. intros d l r on c C F. apply (sql_compile_correct_proof d (Join l r on JFull) c C F). Qed.
+Print Assumptions sql_full_join_is_the_reference.
+
+Theorem polars_full_join_is_the_reference : forall d l r on st,
+  pl_compile d (Join l r on JFull) = Some st -> pflat_ok d (Join l r on JFull) = true ->
+  pl_export st = export_ref (do_join (sem_ref d l) (sem_ref d r) on JFull).
+Proof. intros d l r on st C F. apply (pl_compile_correct_proof d (Join l r on JFull) st C F). Qed.
+Print Assumptions polars_full_join_is_the_reference.
+
 (* F37 in the model: with a computed column on the right of a left join the SELECT does NOT denote the
    reference table (the witness is replayed against the implementation by the probe of F37) *)
 Theorem left_join_computed_right_refuted : exists d l r on c,
@@ -119,5 +133,6 @@ Example full_join_example :
   let a := Join (Source "l" [("a"%string, 1%N)]) (Source "r" [("b"%string, 2%N)])
                 (EFn PDTGen.Catalogue.Op_equal [ECol 1%N; ECol 2%N] false [] []) JFull in
   f_rows (export_ref (sem_ref d a))
-  = [[VInt 1; VNull]; [VNull; VNull]; [VInt 2; VInt 2]; [VInt 2; VInt 2]; [VNull; VInt 3]; [VNull; VNull]].
-Proof. vm_compute. reflexivity. Qed.
+  = [[VInt 1; VNull]; [VNull; VNull]; [VInt 2; VInt 2]; [VInt 2; VInt 2]; [VNull; VInt 3]; [VNull; VNull]]
+  /\ flat_ok a = true /\ pflat_ok d a = true.
+Proof. vm_compute. repeat split; reflexivity. Qed.
